@@ -213,12 +213,15 @@ static void closeSess()
 // the model; the bookkeeping below only implements the rules of the protocol that both sides apply from the
 // operation history alone (see tools/props/c17.py, "protocol of the h-operations"):
 //   dirty    - the object is open in a writing mode and something was written since it was opened / flushed:
-//              how much of that is on disk is stdio's business, so the size of the path is printed as `?`
-//              and reads of the path are refused (`err dirty`) until flush or close;
-//   poisoned - a stat-backed query was made on the object while its path was dirty: what it cached is not
-//              determined; `close()` must discard it (that is the property), so only close clears the flag;
-//   spent    - text()/lines() ran on the object: where they leave the handle is not modelled;
-//   ver      - version of the path when the object was opened for reading (a later writer makes it stale).
+//              how much of that is on disk is stdio's business, so for every OTHER object and for temporaries
+//              the size of the path is printed as `?` and reads of it are refused (`err dirty`); the object
+//              itself flushes in size()/content()/text()/firstBytes() and is answered exactly;
+//   poisoned - a stat-backed query was made on a CLOSED object while its path was dirty: the size it cached is
+//              not determined, its hsize prints `?` until close()/content()/text() discard the cache;
+//   spent    - text()/lines() opened or used the object's own handle: where they leave it is not modelled, so
+//              read()/lines() through it are refused until it is closed or reopened;
+//   ver      - version of the path when the object was opened for reading (a later writer makes it stale for
+//              read()/lines(); content()/text()/firstBytes() of an open object go through a fresh handle).
 struct HObj {
 	File* f; TextFile* t; int path; int mode; bool dirty, poisoned, spent; long ver;   // mode: -1 closed, 0 r, 1 w, 2 a, 3 rw
 	HObj() : f(0), t(0), path(0), mode(-1), dirty(false), poisoned(false), spent(false), ver(0) {}
@@ -439,6 +442,61 @@ static std::string stepOld(const Toks& t)
 		struct stat sb;
 		return b01(ok) + " " + rawStr(2) + " src=" + b01(stat(pathOf(0).c_str(), &sb) == 0);
 	}
+	if ((op == "xtwice" || op == "xputread" || op == "xreopen") && t.size() == 3) {
+		// whole-file readers asked twice / after a lazily opening writer / after reopening, on ONE object
+		if (!parseBytes(t[2], bs)) return "bad-op";
+		bool isT = t[1] == "t";
+		if (!isT && t[1] != "f") return "bad-op";
+		unlink(pathOf(0).c_str());
+		Exact e(bs);
+		std::string r;
+		{
+			File* f = isT ? 0 : new File(P(0));
+			TextFile* tf = isT ? new TextFile(P(0)) : 0;
+			File* o = isT ? (File*)tf : f;
+			if (op == "xtwice") {
+				if (!rawWrite(pathOf(0), bs)) r = "err rawput";
+				else if (isT) { r = showBytes(tf->text()); r += " " + showBytes(tf->text()); r += " " + showBytes(o->firstBytes(2)); r += " " + showBytes(tf->text()); }
+				else { r = showBytes(o->content()); r += " " + showBytes(o->content()); r += " " + showBytes(o->firstBytes(2)); r += " " + showBytes(o->content()); }
+			}
+			else if (op == "xputread") {
+				if (isT) tf->write(S(e)); else f->put(ByteArray((const byte*)e.p, (int)e.n));
+				r = str(o->size());
+				r += " " + (isT ? showBytes(tf->text()) : showBytes(o->content()));
+				if (isT) tf->write(S(e)); else f->put(ByteArray((const byte*)e.p, (int)e.n));    // the object goes on writing where it was
+				r += " " + str(o->size());
+			}
+			else {
+				if (isT) tf->write(S(e)); else f->put(ByteArray((const byte*)e.p, (int)e.n));
+				bool ok = isT ? tf->open(File::READ) : f->open(File::READ);
+				r = b01(ok) + " " + (isT ? showBytes(tf->text()) : showBytes(o->content()));
+			}
+			delete f;
+			delete tf;
+		}
+		if (op == "xreopen") r += " " + rawStr(0);
+		return r;
+	}
+	if ((op == "xstale" || op == "xstalesize") && t.size() == 4) {
+		// an object asks size(), the file is then replaced through a temporary; what does the object say afterwards?
+		std::string b1, b2;
+		if (!parseBytes(t[2], b1) || !parseBytes(t[3], b2)) return "bad-op";
+		bool isT = t[1] == "t";
+		if (!isT && t[1] != "f") return "bad-op";
+		if (!rawWrite(pathOf(0), b1)) return "err rawput";
+		File* f = isT ? 0 : new File(P(0));
+		TextFile* tf = isT ? new TextFile(P(0)) : 0;
+		File* o = isT ? (File*)tf : f;
+		o->size();
+		Exact e2(b2);
+		TextFile(P(0)).write(S(e2));
+		std::string r;
+		if (op == "xstalesize") r = str(o->size());
+		else r = isT ? showBytes(tf->text()) : showBytes(o->content());
+		delete f;
+		delete tf;
+		return r;
+	}
 	if (op == "xobj" && t.size() == 6) {
 		// ONE object: open(mode), write, a stat-backed query while open, write, close(), then size(), text(), content()
 		std::string b1, b2;
@@ -500,6 +558,12 @@ static std::string stepOld(const Toks& t)
 	return "bad-op";
 }
 
+static bool dirtyOther(int self, int p)
+{
+	for (int i = 0; i < 4; i++) if (i != self && hs[i] && hs[i]->path == p && hs[i]->dirty) return true;
+	return false;
+}
+
 static std::string hstep(const Toks& t)
 {
 	const std::string& op = t[0];
@@ -521,12 +585,14 @@ static std::string hstep(const Toks& t)
 	if (op == "hopen" && t.size() == 3) {
 		int m = t[2] == "r" ? 0 : t[2] == "w" ? 1 : t[2] == "a" ? 2 : t[2] == "rw" ? 3 : -1;
 		if (m < 0) return "bad-op";
-		if (o->mode >= 0) hclose(o);                   // reopen = close() + open()
 		if (m >= 1 && otherWriter(hi, p)) return "err busy";
 		File::OpenMode om = m == 0 ? File::READ : m == 1 ? File::WRITE : m == 2 ? File::APPEND : File::RW;
-		bool ok = o->f ? o->f->open(om) : o->t->open(om);
+		bool wasOpen = o->mode >= 0;
+		bool ok = o->f ? o->f->open(om) : o->t->open(om);     // on an open object: the library closes the old handle itself
+		if (wasOpen) o->poisoned = false;                       // that close() discarded the cache
+		o->dirty = false; o->spent = false;
+		o->mode = ok ? m : -1;
 		if (!ok) return "err open";
-		o->mode = m;
 		if (m == 1 || m == 2) pver[p]++;
 		o->ver = pver[p];
 		return "ok";
@@ -558,42 +624,58 @@ static std::string hstep(const Toks& t)
 		return r;
 	}
 	if ((op == "hsize" || op == "hexists" || op == "hisfile" || op == "hisdir" || op == "hmtime") && t.size() == 2) {
-		bool dirty = pathDirty(p);
-		if (dirty) o->poisoned = true;
-		if (op == "hsize") { Long s = o->base()->size(); return (dirty || o->poisoned) ? "?" : str(s); }
+		bool other = dirtyOther(hi, p);
+		bool own = o->dirty;
+		if (o->mode < 0 && other) o->poisoned = true;          // a closed object caches what stat sees now
+		if (op == "hsize") {
+			Long s = o->base()->size();                         // an open object flushes itself and asks again
+			if (o->mode >= 0) o->dirty = false;
+			return (other || (o->mode < 0 && o->poisoned)) ? "?" : str(s);
+		}
+		(void)own;
 		if (op == "hexists") return b01(o->base()->exists());
 		if (op == "hisfile") return b01(o->base()->isFile());
 		if (op == "hisdir") return b01(o->base()->isDirectory());
 		o->base()->lastModified();
 		return "ok";
 	}
-	if (op == "hcontent" || op == "hfirst" || op == "hr" || op == "htext" || op == "hlines") {
-		if ((op == "htext" || op == "hlines") && !o->t) return "err kind";
+	if ((op == "hcontent" && t.size() == 2) || (op == "htext" && t.size() == 2) || (op == "hfirst" && t.size() == 3)) {
+		// whole-file readers: work on a closed object (which they open for reading) and on an open one in any mode
+		if (op == "htext" && !o->t) return "err kind";
+		if (dirtyOther(hi, p)) return "err dirty";
+		std::string r;
+		if (op == "hcontent") r = showBytes(o->base()->content());
+		else if (op == "htext") r = showBytes(o->t->text());
+		else {
+			long long k = num(t[2]);
+			if (k < 0 || k > (1 << 26)) return "bad-op";
+			r = showBytes(o->base()->firstBytes((int)k));
+		}
+		if (o->mode >= 0) o->dirty = false;                     // they flushed the object
+		else if (!!*o->base()) { o->mode = 0; o->ver = pver[p]; if (op == "htext") o->spent = true; }
+		if (op != "hfirst") o->poisoned = false;                // content()/text() of a closed object discard the cache; an open one does not use it
+		return r;
+	}
+	if ((op == "hr" && t.size() == 3) || (op == "hlines" && t.size() == 2)) {
+		// readers that continue from the object's own position
+		if (op == "hlines" && !o->t) return "err kind";
 		if (o->mode >= 1) return "err mode";
 		if (op == "hr" && o->mode < 0) return "err closed";
 		if (pathDirty(p)) return "err dirty";
-		if (o->poisoned) return "err poisoned";
 		if (o->spent) return "err spent";
 		if (o->mode == 0 && o->ver != pver[p]) return "err stale";
-		if ((op == "htext" || op == "hlines") && o->mode == 0 && o->base()->position() != 0) return "err pos";
 		std::string r;
-		if (op == "hcontent" && t.size() == 2) r = showBytes(o->base()->content());
-		else if ((op == "hfirst" || op == "hr") && t.size() == 3) {
+		if (op == "hr") {
 			long long k = num(t[2]);
 			if (k < 0 || k > (1 << 26)) return "bad-op";
-			if (op == "hfirst") r = showBytes(o->base()->firstBytes((int)k));
-			else {
-				char* buf = (char*)malloc(k ? (size_t)k : 1);
-				int n = o->base()->read(buf, (int)k);
-				r = showBytes(buf, n);
-				free(buf);
-			}
+			char* buf = (char*)malloc(k ? (size_t)k : 1);
+			int n = o->base()->read(buf, (int)k);
+			r = showBytes(buf, n);
+			free(buf);
 		}
-		else if (op == "htext" && t.size() == 2) r = showBytes(o->t->text());
-		else if (op == "hlines" && t.size() == 2) r = showLines(o->t->lines());
-		else return "bad-op";
+		else r = showLines(o->t->lines());
 		if (o->mode < 0 && !!*o->base()) { o->mode = 0; o->ver = pver[p]; }
-		if ((op == "htext" || op == "hlines") && o->mode == 0) o->spent = true;
+		if (op == "hlines" && o->mode == 0) o->spent = true;
 		return r;
 	}
 	return "bad-op";
